@@ -47,6 +47,7 @@ ODD = [
     "stoch_nodeps", "stoch_period_only", "restricted_stochastic", "filter_states_only", "only_cont_choices", "only_disc_choices",
     "next_for_nonstate", "state_only_in_transitions", "cont_var_in_filter", "name_contains_next", "filter_through_aux",
     "two_filters_one_state_only", "constant_aux", "log_state_and_choice", "transition_into_excluded_state",
+    "state_named_params", "state_named_vf_arr", "state_named_state_indexer", "choice_named_keys", "state_named_value", "three_constraints",
 ]
 
 
@@ -232,6 +233,17 @@ def odd_source(odd, T):
     elif odd == "transition_into_excluded_state":
         # the filter declares s = 2 impossible, but next_s can reach it (inconsistent specification)
         F["sd_filter"] = "def sd_filter(s, d):\n    return jnp.logical_and(s < 2, d >= 0)"
+    elif odd in ("state_named_params", "state_named_vf_arr", "state_named_state_indexer", "state_named_value"):
+        nm = odd.removeprefix("state_named_")
+        states.append((nm, "D(2)"))
+        F[f"next_{nm}"] = f"def next_{nm}({nm}):\n    return {nm}"
+        F["utility"] = f"def utility(s, w, d, c, {nm}, a):\n    return jnp.log(c) + a * d * (s + 1) + 0.01 * w + 0.1 * {nm}"
+    elif odd == "choice_named_keys":
+        choices.append(("keys", "D(2)"))
+        F["utility"] = "def utility(s, w, d, c, keys, a):\n    return jnp.log(c) + a * d * (s + 1) + 0.01 * w + 0.1 * keys"
+    elif odd == "three_constraints":
+        F["lb_constraint"] = "def lb_constraint(c):\n    return c >= 0.7629"
+        F["dw_constraint"] = "def dw_constraint(d, w):\n    return d <= w - 0.7371"
     elif odd == "only_cont_choices":
         choices = [("c", c_grid)]
         F["utility"] = "def utility(s, w, c, a):\n    return jnp.log(c) + a * s + 0.01 * w"
